@@ -335,7 +335,7 @@ def run_property(prop, tier, seed, only=None, jobs=None):
 # --------------------------------------------------------------------------- reporting
 
 def write_replay(prop, v, tier, seed):
-    d = os.path.join(VERIF, 'replays', prop)
+    d = os.path.join(os.environ.get('VERIF_REPLAY_DIR') or os.path.join(VERIF, 'replays'), prop)
     os.makedirs(d, exist_ok=True)
     h = hashlib.sha1((v['site'] + '|' + v['kind'] + '|' + v['case']).encode()).hexdigest()[:10]
     path = os.path.join(d, '%s.json' % h)
@@ -394,8 +394,9 @@ def write_evidence(prop, mod, merged, tier, seed, wall, nviol):
     cov['violation_groups'] = {'%s|%s' % g: d['n'] for g, d in sorted(merged['viol'].items())}
     ev = {'property_id': prop, 'tier': tier, 'seed': seed, 'level': level, 'coverage': cov,
           'assumptions': list(mod.ASSUME), 'wall_s': round(wall, 2), 'violations': nviol}
-    os.makedirs(os.path.join(VERIF, 'evidence'), exist_ok=True)
-    path = os.path.join(VERIF, 'evidence', '%s.json' % prop)
+    evdir = os.environ.get('VERIF_EVIDENCE_DIR') or os.path.join(VERIF, 'evidence')
+    os.makedirs(evdir, exist_ok=True)
+    path = os.path.join(evdir, '%s.json' % prop)
     tmp = path + '.tmp'
     with open(tmp, 'w') as f:
         json.dump(ev, f, indent=1, sort_keys=True, default=str)
